@@ -9,7 +9,7 @@
                is cycle number [c_tgt c]  ([cyc_at (cycles s) (c_tgt c)]).
    [c_pc c]  = Enter | AfterSec1 startedCh | PastStarted | AfterSec2 doneCh | Returned. *)
 From Coq Require Import List Arith Bool.
-From GS Require Import Lifecycle LifecycleInv LifecycleStep LifecycleMain LifecycleMono
+From GS Require Import Lifecycle LifecycleInv LifecycleStep LifecycleMain LifecycleMono LifecycleMeasure
                        LifecycleRunner LifecycleRunnerProofs RunnerShape.
 Import ListNotations.
 
@@ -54,6 +54,31 @@ Theorem C07_immediate : forall sched s k c c0 t,
     Forall (fun l => In l (own_labels k)) own /\ length own <= 4 /\
     run true s own = Some s' /\ nth_error (callers s') k = Some c' /\ c_pc c' = Returned.
 Proof. exact (immediate true). Qed.
+
+(* ---------- the fairness-free part of "never blocks forever once Run has been invoked" ---------- *)
+(* [owed l]: l is a critical section / satisfied wait of a Stop caller, Run's select taking the StopCh case, or the
+   deferred done() -- what the helper and a Run that honours the signal owe; the rest (a new Stop caller, Run being
+   invoked, Run leaving for a reason of its own) is the environment.
+   In every reachable state where no owed label is enabled, a Stop() that has not returned targets a Run that was
+   NEVER INVOKED: a maximal execution of the owed labels ends with every other Stop() returned. *)
+Theorem C07_stuck_returned : forall sched s k c,
+  run true init sched = Some s -> owed_stuck true s ->
+  nth_error (callers s) k = Some c -> c_pc c <> Returned ->
+  cyc_at (cycles s) (c_tgt c) = None.
+Proof. exact stuck_returned. Qed.
+
+(* ... and such executions are finite: a measure of the whole state strictly decreases on every owed label,
+   grows by at most 4 on an environment label, and bounds the length of any run of owed labels *)
+Theorem C07_gmeasure_decreases : forall fx s l s',
+  owed l = true -> step fx s l = Some s' -> gmeasure s' < gmeasure s.
+Proof. exact gmeasure_decreases. Qed.
+
+Theorem C07_gmeasure_env : forall fx s l s', step fx s l = Some s' -> gmeasure s' <= gmeasure s + 4.
+Proof. exact gmeasure_env. Qed.
+
+Theorem C07_owed_run_bounded : forall fx ls s s',
+  Forall (fun l => owed l = true) ls -> run fx s ls = Some s' -> length ls + gmeasure s' <= gmeasure s.
+Proof. exact owed_run_bounded. Qed.
 
 (* ---------- the bundled runnables built on it (composite, HTTP server, HTTP cluster) ---------- *)
 
@@ -117,6 +142,10 @@ Print Assumptions C07_signalled.
 Print Assumptions C07_progress.
 Print Assumptions C07_measure_monotone.
 Print Assumptions C07_immediate.
+Print Assumptions C07_stuck_returned.
+Print Assumptions C07_gmeasure_decreases.
+Print Assumptions C07_gmeasure_env.
+Print Assumptions C07_owed_run_bounded.
 Print Assumptions C07_runners_shape.
 Print Assumptions C07_runners_simulation.
 Print Assumptions C07_runners_after_run.
@@ -168,3 +197,22 @@ Example C07_ex_runner : exists rs c,
               RCaller (LSec2 0); RBootOk; RSelStop; RLocal; RReturn; RCaller (LWaitDone 0)] = Some rs /\
   r_pc rs = KIdle /\ nth_error (callers (r_lc rs)) 0 = Some c /\ c_pc c = Returned.
 Proof. eexists. eexists. split; [vm_compute; reflexivity|]. split; [reflexivity|]. split; [vm_compute; reflexivity | reflexivity]. Qed.
+
+(* all hypotheses of C07_stuck_returned at once: Stop before any Run -- the state is owed-stuck, the caller has not
+   returned, and indeed the Run it targets (generation 0) was never invoked *)
+Example C07_ex_stuck_before_run : exists s c,
+  run true init [LSpawn; LSec1 0] = Some s /\ owed_stuck true s /\
+  nth_error (callers s) 0 = Some c /\ c_pc c <> Returned /\ cyc_at (cycles s) (c_tgt c) = None.
+Proof.
+  eexists. eexists. split; [vm_compute; reflexivity|]. split.
+  - intros l Hl. destruct l; try discriminate Hl; try reflexivity;
+      destruct k as [|[|k]]; reflexivity.
+  - split; [vm_compute; reflexivity|]. split; [discriminate | reflexivity].
+Qed.
+
+(* a complete Stop-during-Run execution consists of owed labels after the two environment ones, ends owed-stuck with
+   the caller returned, and its length obeys C07_owed_run_bounded (6 owed labels, measure 6 -> 0) *)
+Example C07_ex_owed_run : exists s0 s1,
+  run true init [LSpawn; LRunStart] = Some s0 /\ gmeasure s0 = 6 /\
+  run true s0 [LSec1 0; LWaitStarted 0; LRunSeeStop; LSec2 0; LDone; LWaitDone 0] = Some s1 /\ gmeasure s1 = 0.
+Proof. eexists. eexists. repeat split; vm_compute; reflexivity. Qed.
